@@ -1900,13 +1900,16 @@ bool Node::perform_handshake(const PeerId& peer_id,
     const auto now = std::chrono::steady_clock::now();
     const auto key = peer_id_to_string(peer_id);
 
-    const auto existing = handshake_state_.find(key);
-    if (existing != handshake_state_.end()) {
-        const auto elapsed = now - existing->second.last_attempt;
-        if (existing->second.success && elapsed < config_.handshake_cooldown &&
-            existing->second.remote_public == remote_public_key &&
-            existing->second.remote_pow_nonce == remote_work_nonce) {
-            return true;
+    {
+        std::scoped_lock handshake_lock(handshake_mutex_);
+        const auto existing = handshake_state_.find(key);
+        if (existing != handshake_state_.end()) {
+            const auto elapsed = now - existing->second.last_attempt;
+            if (existing->second.success && elapsed < config_.handshake_cooldown &&
+                existing->second.remote_public == remote_public_key &&
+                existing->second.remote_pow_nonce == remote_work_nonce) {
+                return true;
+            }
         }
     }
 
@@ -1917,7 +1920,10 @@ bool Node::perform_handshake(const PeerId& peer_id,
 
     if (!network::KeyExchange::validate_public(remote_public_key)) {
         record.success = false;
-        handshake_state_[key] = record;
+        {
+            std::scoped_lock handshake_lock(handshake_mutex_);
+            handshake_state_[key] = record;
+        }
         reputation_.record_failure(peer_id);
         return false;
     }
@@ -1931,7 +1937,10 @@ bool Node::perform_handshake(const PeerId& peer_id,
     if (!pow_valid) {
         pow_counters_.handshake_failure.fetch_add(1, std::memory_order_relaxed);
         record.success = false;
-        handshake_state_[key] = record;
+        {
+            std::scoped_lock handshake_lock(handshake_mutex_);
+            handshake_state_[key] = record;
+        }
         reputation_.record_failure(peer_id);
         reputation_.record_failure(peer_id);
         return false;
@@ -1948,7 +1957,10 @@ bool Node::perform_handshake(const PeerId& peer_id,
 
     reputation_.record_success(peer_id);
     record.success = true;
-    handshake_state_[key] = record;
+    {
+        std::scoped_lock handshake_lock(handshake_mutex_);
+        handshake_state_[key] = record;
+    }
     return true;
 }
 
@@ -1957,6 +1969,7 @@ int Node::reputation_score(const PeerId& peer_id) const {
 }
 
 std::optional<bool> Node::last_handshake_success(const PeerId& peer_id) const {
+    std::scoped_lock handshake_lock(handshake_mutex_);
     const auto it = handshake_state_.find(peer_id_to_string(peer_id));
     if (it == handshake_state_.end()) {
         return std::nullopt;
